@@ -242,9 +242,11 @@ func (e *explorer) account(s *Sched, o Outcome, prefix, sleep []TransKey) {
 		return
 	}
 	st.Executions++
-	for n := range s.noteSet {
-		st.Notes[n]++
-	}
+	defer func() {
+		for n := range s.noteSet {
+			st.Notes[n]++
+		}
+	}()
 	key, msg := "", ""
 	switch {
 	case o.Kind == "panic":
